@@ -81,7 +81,8 @@ struct Sc {
 	// fibre behaviour
 	int y_left = 0, sl_rounds = 0;
 	uint32_t sl_delta = 3, sl_due = 0;
-	bool sl_armed = false, epilogue = false, sl_kick = false;
+	bool sl_armed = false, epilogue = false, sl_kick = false, prelude = false;
+	std::vector<uint32_t> prelude_received;
 	uint32_t now = 100;
 	// history
 	std::vector<Dispatch> disp;
@@ -278,6 +279,18 @@ void main_script(void *)
 extern "C" int hfc_dispatch(int idx)
 {
 	Sc &s = *G;
+	if (s.prelude) { // sequential warm-up of the event queue (before any interrupt context exists): not part of the history
+		if (idx == EV)
+			for (int guard = 0; guard < 16; guard++) {
+				uint32_t id;
+				int slot = afc_ev_receive(&id);
+				if (slot < 0)
+					break;
+				s.prelude_received.push_back(id);
+				afc_ev_release(slot);
+			}
+		return WAITING;
+	}
 	uint64_t entry = vrt_now();
 	s.disp.push_back({ idx, entry });
 	if (s.cur_pass) {
@@ -355,7 +368,7 @@ void h_run(Ctx &c)
 		s.mode = t.weighted({ 1, 3 }) == 0 ? VRT_THREADS : VRT_ISR;
 	s.evdepth = (unsigned)c.param("evdepth", fixed ? 1 : 0);
 	if (!s.evdepth)
-		s.evdepth = 1 + t.choose(2);
+		s.evdepth = 1 + t.choose(c.feat(2) ? 3 : 2);
 	int every = (int)c.param("every_access", fixed ? 0 : -1);
 	if (every < 0)
 		every = (int)t.choose(2);
@@ -429,6 +442,32 @@ void h_run(Ctx &c)
 	vrt_reset(s.mode, choose_cb);
 	vrt_config((int)c.param("preempt", -1), every, s.mode == VRT_THREADS ? 1 : 0);
 	afc_setup(s.evdepth);
+	// now and then the event queue has already carried more than 2^8 events, one at a time, before the scenario starts
+	unsigned warm = (!fixed && c.feat(2) && t.weighted({ 7, 1 }) == 1) ? 245 + (unsigned)t.choose(30) : 0;
+	if (warm) {
+		c.cls("event-queue-warmed-up (>= 245 events before the scenario)");
+		s.prelude = true;
+		for (unsigned i = 0; i < warm && !c.failed; i++) {
+			uint32_t id = 0xA0000000u | i;
+			int slot = afc_ev_claim();
+			if (slot < 0) {
+				fail6("warm-up: fibre_eventq_claim failed for event #%u although every earlier event was received and released", i);
+				break;
+			}
+			afc_ev_fill(slot, id);
+			if (!afc_ev_send(slot)) {
+				fail6("warm-up: fibre_eventq_send failed for event #%u with an otherwise idle scheduler", i);
+				break;
+			}
+			afc_next(s.now);
+			if (s.prelude_received.size() != i + 1 || s.prelude_received.back() != id) {
+				fail6("warm-up: event #%u (id %08x) was sent (send returned true) but after the next scheduler pass the handler had received %zu events, the last being %08x",
+				      i, id, s.prelude_received.size(), s.prelude_received.empty() ? 0 : s.prelude_received.back());
+				break;
+			}
+		}
+		s.prelude = false;
+	}
 	vrt_set_main_clock_base();
 	if (c.want_log) {
 		std::string sc;
